@@ -236,7 +236,7 @@ def violates(d, kind, ops, aspect=None):
 def _report(rec, d, kind, ops, asp, det):
     # minimise the explicit op list (boundaries are ops too) by greedy removal
     cur = list(ops)
-    budget = 16
+    budget = 20
     changed = True
     while changed and budget > 0:
         changed = False
@@ -258,7 +258,17 @@ def _report(rec, d, kind, ops, asp, det):
         cur = list(ops)
     kinds = ["boundary" if o[0] in ("commit", "reopen") else o[0] if o[0] != "copy" else ("copy-into" if (len(o) > 3 and o[3] and o[3].get("into")) else "copy") for o in cur]
     needs_boundary = any(o[0] in ("commit", "reopen") for o in cur)
-    sig = f"c09:{asp}:{'ih5' if kind != 'h5' else 'h5'}:{'patched' if needs_boundary else 'single-container'}:" + digest(kinds)
+    fam = "ih5" if kind != "h5" else "h5"
+    if asp == "status":
+        # the diverging step identifies the defect class better than the whole history
+        import re
+
+        m = re.match(r"step (\d+):", det)
+        user_kinds = [k for k in kinds if k != "boundary"]
+        step_kind = user_kinds[int(m.group(1))] if m and int(m.group(1)) < len(user_kinds) else "?"
+        sig = f"c09:status:{fam}:{step_kind}" + (":after-hang" if "hang" in det else "")
+    else:
+        sig = f"c09:{asp}:{fam}:{'patched' if needs_boundary else 'single-container'}:" + digest(kinds)
     fns = ["ih5/overlay.py:IH5InnerNode._children"] if needs_boundary and asp in ("nodes", "data-attrs") else ["container/wrappers.py:MetadorGroup", "ih5/overlay.py:IH5Group"]
     rec.check(False, sig, f"{kind}: ops {cur}: {det}"[:900], case={"kind": kind, "ops": cur, "aspect": asp}, fns=fns)
 
@@ -282,7 +292,7 @@ def run(tier: str, seed: int) -> dict:
     info = {"scenarios": 0, "runs": 0, "levels": {}, "walks": 0}
     with tmpdir(prefix=TMP_PREFIX) as d:
         # 1. hand-picked scenarios (length 2..6), richest placement set
-        t_scen = t0 + total * (0.3 if quick else 0.2)
+        t_scen = t0 + total * (0.4 if quick else 0.2)
         for h in SCENARIOS:
             if time.time() > t_scen or rec.full:
                 break
